@@ -125,3 +125,35 @@ Example ex_rule_ok : rule_ok 0 1 [(q 0 1, q 2 1)] = true.
 Proof. vm_compute. reflexivity. Qed.
 Example ex_nqp_is_one : Z.to_nat (nqp_default 4 2 2) = 1%nat.
 Proof. vm_compute. reflexivity. Qed.
+
+(* ---- polynomial form of the basis on a span, and the exact-integral theorems ---------------- *)
+From Verif.C09 Require Import Poly Proofs_exact.
+
+(* span 4 of ex_kv is (1/4, 1/2); function 2 of degree 2 restricted to it, as coefficients *)
+Example ex_nref_poly : qc_list_eqb (nref_poly ex_kv 2 2 4) [q 4 1; q (-16) 1; q 16 1] = true
+  /\ qeqb (Nref ex_kv 2 2 (q 3 8)) (peval (nref_poly ex_kv 2 2 4) (q 3 8)) = true
+  /\ qeqb (Nref ex_kv 2 2 (q 3 8)) 0 = false.
+Proof. vm_compute. repeat split; reflexivity. Qed.
+
+Example ex_dnref_poly : qc_list_eqb (dnref_poly ex_kv 1 2 2 4) [q (-16) 1; q 32 1] = true.
+Proof. vm_compute. reflexivity. Qed.
+
+(* hypotheses of biform_1d_entry_exact_rule0 hold for (du,dv) = (2,2) with the midpoint rule
+   (default node count 1, exact to degree 1, eps = 0): ex_kv_ok, ex_rule_ok, ex_nqp_is_one;
+   and both sides of its conclusion, computed: a non-zero entry *)
+Example ex_entry_exact :
+  qeqb (entry1d ex_kv 2 2 2 [(q 0 1, q 2 1)] None 2 3)
+       (sumf (fun k => span_half ex_kv (nth k (span_indices ex_kv) 0%nat)
+                       * pint 0 (cell_poly ex_kv 2 2 2 2 3 (nth k (span_indices ex_kv) 0%nat))) (seq 0 (numspans ex_kv))) = true
+  /\ qeqb (entry1d ex_kv 2 2 2 [(q 0 1, q 2 1)] None 2 3) 0 = false.
+Proof. vm_compute. split; reflexivity. Qed.
+
+(* hypothesis grid_in_spans of biform_asym_entry_exact_partial: the mesh of ex_kv inside the spans
+   2, 4, 5 of ex_kv itself and inside the spans 1, 1, 2 of the coarser ex_kv2 *)
+Example ex_grid_in_spans : grid_in_spans ex_kv (mesh ex_kv) [2; 4; 5]%nat /\ grid_in_spans ex_kv2 (mesh ex_kv) [1; 1; 2]%nat.
+Proof.
+  split; intros k Hk; change (length (mesh ex_kv)) with 4%nat in Hk;
+    (destruct k as [|[|[|k]]]; [| | |lia]);
+    (split; [apply qltb_iff; vm_compute; reflexivity|]); (split; [cbn; lia|]);
+    split; apply qleb_iff; vm_compute; reflexivity.
+Qed.
